@@ -19,6 +19,10 @@ S2_NOTE = ("Trusted base: the reference stepper (dsim/src/s2/reference.rs, trans
            "model, so the simulator's choices are: the generated system, and which enabled action (delivery, drop, timer, crash, random "
            "selection) happens next. Sampled search over seeds, not a proof.")
 
+S4_NOTE = ("Trusted base: the history generator (simulated clients and object with seeded linearization points and injected faults) and the "
+           "exhaustive search over the definition (dsim/src/s4/mod.rs). Histories are bounded (<= 8 operations, <= 4 threads) so that the "
+           "search is exact. Sampled over seeds, not a proof.")
+
 CHECKS = {
  "C01": ("Seeded search over generated finite models x checker configurations x schedules: the real BFS/DFS/on-demand checkers run with 1-4 workers under a deterministic scheduler that owns every synchronisation point; the multiset of states shown to the visitor is compared with an independent reachability analysis, every visitor path is re-executed. Right level because the claim is over all graphs, configurations and interleavings: exhaustive enumeration is impossible, while sampled deterministic schedules reach lost/duplicated work that a single OS schedule never shows.", "5/C01", S1_NOTE, "deterministic simulation (seeded schedule search) + reference reachability oracle"),
  "C02": ("As C01 with 1-5 always/sometimes properties labelled on the states; verdicts compared in both directions with the reference reachable set after completed exhaustive runs; assert_properties/is_done cross-checked.", "5/C02", S1_NOTE, "deterministic simulation + reference verdict oracle"),
@@ -32,6 +36,11 @@ CHECKS = {
  "C07": ("As C06 on traffic-heavy systems (repeated identical messages, several per flow, initial contents, drops, redeliveries) for the three network kinds x lossy: content equals the reference flows/multiset/set after every step; deliverable set, drop offers, len(), iter_all() (consumed with a hard cap so a non-terminating iterator is a finding, not a hang) and iter_deliverable() agree with the content.", "5/C07", S2_NOTE, "deterministic simulation (message-fault walks) + reference network model"),
  "C09": ("As C06 with crash budgets 1-2 and crashes forced right after a send to the victim, with timers armed and choices pending: crash offered <=> actor up and fewer than k down; crash only sets the flag and clears the victim's timers/choices; no step of a crashed actor is ever effective, deliveries to it leave the message in place.", "5/C09", S2_NOTE, "deterministic simulation (crash-point injection) + reference crash semantics"),
  "C10": ("S2 half: representative() of every state reached by seeded walks equals the state permuted by the stable argsort of the actor states (actor order, envelope endpoints, ids inside messages/history/local state, timers, crash flags, choices), computed by harness code.", "5/C10", S2_NOTE, "deterministic simulation (seeded walks) + permutation oracle"),
+ "C08": ("Concurrent histories are produced by a seeded schedule of simulated client threads against a simulated shared object (correct, or faulty: stale read, lost write, wrong return, duplicated reply, reply without request, re-invocation without waiting), with operations left in flight, and fed event by event to the real LinearizabilityTester; after every event its verdict is compared with an exhaustive search of the definition, any serialization it returns is validated, ill-formed events must give Err and stay rejected. Four specs incl. one using the default is_valid_step.", "5/C08", S4_NOTE, "deterministic simulation of clients/object (seeded histories with faults) + exhaustive definition oracle"),
+ "C14": ("As C08 for the SequentialConsistencyTester (no real-time filter), plus: every prefix accepted by the linearizability tester is accepted by this one, and a clone of either tester taken before an event is unchanged after the original moved on.", "5/C14", S4_NOTE, "deterministic simulation of clients/object + exhaustive definition oracle"),
+ "C15": ("A bare actor system and the same system wrapped in an adapter (Choice<A,Never>, Choice<A1,A2> in L/R positions, three-level nesting, RegisterActor::Server, WORegisterActor::Server; Vec client vs a reference client) are walked in lockstep by a seeded walker over messages, timers, random choices, drops and crashes; effective steps must correspond one to one and successor states be equal modulo the wrapper constructor.", "5/C15", S2_NOTE, "deterministic simulation (seeded lockstep walks) + isomorphism oracle"),
+ "C16": ("2-3 link-wrapped actors exchange uniquely numbered messages over duplicating / non-duplicating / ordered networks with loss; a seeded walker chooses deliveries, drops, reorderings and resend-timer firings, then a quiescence phase (no more faults, fair deliveries and resends) drains the links. At every state the sequence handed to each wrapped receiver must be a prefix of what was sent to it, an un-handed message must still be pending acknowledgement, and with nothing pending the sequences are equal. Hand-overs are observed at the wrapped actor's own on_msg.", "5/C16", S2_NOTE, "deterministic simulation with message-fault injection + prefix/exactly-once oracle"),
+ "C18": ("Spec half: operation sequences from generated histories are applied to Register / WORegister / Vec; is_valid_step is compared with invoke for the actual and a perturbed return (and the resulting object state after a valid step), is_valid_history with invoking from the initial object. Harness half: seeded walks (deliveries, drops, crashes) of systems built from RegisterActor / WORegisterActor clients with the record_invocations / record_returns hooks around servers that answer each request at most once (direct, forwarding, delaying, silent; 1-2 servers, 1-3 clients, all network kinds); per client at most one outstanding request with a fresh id, and the recorded tester must equal a shadow tester fed with exactly the client-visible sends and accepted replies.", "5/C18", S4_NOTE + " " + S2_NOTE, "deterministic simulation (seeded histories and harness walks) + shadow-history oracle"),
 }
 
 PENDING = {
